@@ -89,4 +89,15 @@ for variant, keys in (("kw:headers,retries,body", ["headers", "retries", "body"]
           "effective-policy=request-level-else-pool-default")
     c.tag("C09", "absolute-form-iff-forwarding-else-origin-form(path?query,no-fragment,no-userinfo)", "pool-never-follows-redirects-itself")
     c.tag("C15", "absolute-form-iff-forwarding-else-origin-form(path?query,no-fragment,no-userinfo)", "method-as-requested")
-    c.invariant(1, "True", havoc_objects=["new_headers"], iter="dict-keys", item_type="str")
+    # the strip loop, per iteration (old() = start of the iteration; ghost.probe is an arbitrary header name):
+    S = "retries.remove_headers_on_redirect"
+    c.ghost("probe")
+    c.invariant(1, "True", havoc_objects=["new_headers"], iter="dict-keys", item_type="str", iter_post=[
+        ("a-visited-name-on-the-strip-list-is-absent-from-the-copy", f"implies(isinstance(new_headers, dict), implies(_item.lower() in {S}, _item not in new_headers))"),
+        ("names-not-on-the-strip-list-are-kept-with-their-values",
+         f"implies(isinstance(new_headers, dict) and (_item.lower() not in {S} or ghost.probe != _item), (ghost.probe in new_headers) == old(ghost.probe in new_headers)"
+         " and implies(ghost.probe in new_headers, new_headers[ghost.probe] is old(new_headers[ghost.probe])))"),
+        ("nothing-is-ever-added-to-the-copy", "implies(isinstance(new_headers, dict), implies(ghost.probe in new_headers, old(ghost.probe in new_headers)))"),
+    ])
+    c.tag("C06", "a-visited-name-on-the-strip-list-is-absent-from-the-copy", "names-not-on-the-strip-list-are-kept-with-their-values",
+          "nothing-is-ever-added-to-the-copy")
